@@ -98,6 +98,9 @@ pub struct WorkerSpec {
     pub elide: bool,
     pub try_sites: Vec<(String, u32)>,
     pub seed: u64,
+    /// every virtual thread gets a fresh OS thread (no carrier reuse): needed when the subject keeps thread-local state,
+    /// which would otherwise leak from one execution into the next; switched on automatically after a NONDETERMINISM report
+    pub fresh: bool,
 }
 
 pub fn run_one(spec: &WorkerSpec, prefix: &[u8]) -> Outcome {
@@ -134,7 +137,11 @@ pub fn worker_main(args: &[String]) {
         elide: args[3] == "1",
         try_sites: sites_from_string(&args[4]),
         seed: args[5].parse().unwrap(),
+        fresh: std::env::var("VSCHED_FRESH_THREADS").is_ok(),
     };
+    if spec.fresh {
+        vsched::rt::FRESH_THREADS.store(true, std::sync::atomic::Ordering::SeqCst);
+    }
     // the prefix of the execution about to run is always announced, so that a worker killed by the
     // subject (segfault, sanitizer abort) can be traced back to one schedule
     let track_cur = true;
@@ -341,6 +348,7 @@ fn spawn_worker(exe: &str, spec: &WorkerSpec) -> WorkerProc {
         .arg(if spec.elide { "1" } else { "0" })
         .arg(sites_to_string(&spec.try_sites))
         .arg(spec.seed.to_string())
+        .envs(if spec.fresh { vec![("VSCHED_FRESH_THREADS", "1")] } else { vec![] })
         .stdin(Stdio::piped())
         .stdout(Stdio::piped())
         .stderr(if std::env::var("VCHECK_QUIET_WORKERS").is_ok() { Stdio::null() } else { Stdio::inherit() })
@@ -380,6 +388,20 @@ pub fn explore(exe: &str, spec: &WorkerSpec, limits: &Limits) -> ExploreResult {
                 restarts += 1;
                 continue;
             }
+        }
+        // a violation found on reused carrier threads must say the same on fresh OS threads (a replay always runs on fresh ones)
+        let carrier_artefact = !spec.fresh
+            && r.vios.first().map(|v| match replay_in_subprocess(exe, &spec, &v.schedule) {
+                Some((_, Some(f))) => f != v.text,
+                Some((_, None)) => true,
+                None => false, // the replay process died: handled as a crash by the caller
+            }).unwrap_or(false);
+        if !spec.fresh && (carrier_artefact || !r.crashed.is_empty() || !r.nondet.is_empty() || r.vios.iter().any(|v| v.text.contains("NONDETERMINISM"))) {
+            // state that survives from one execution to the next on a reused carrier thread (thread-locals of the subject):
+            // explore again with a fresh OS thread per virtual thread, which is what the subject sees in production
+            spec.fresh = true;
+            restarts += 1;
+            continue;
         }
         let mut r = r;
         r.stats.restarts = restarts;
@@ -629,7 +651,7 @@ pub fn replay_in_subprocess(exe: &str, spec: &WorkerSpec, schedule: &[u8]) -> Op
 
 /// `vcheck replay1 <scenario> <cfg> <elide> <sites> <hexschedule>`: one execution, machine readable
 pub fn replay1_main(args: &[String]) {
-    let spec = WorkerSpec { scenario: args[0].clone(), cfg: Cfg::parse(if args[1] == "-" { "" } else { &args[1] }), bound: 0, elide: args[2] == "1", try_sites: sites_from_string(&args[3]), seed: 0 };
+    let spec = WorkerSpec { scenario: args[0].clone(), cfg: Cfg::parse(if args[1] == "-" { "" } else { &args[1] }), bound: 0, elide: args[2] == "1", try_sites: sites_from_string(&args[3]), seed: 0, fresh: true };
     let sched = unhex(&args[4]);
     let o = run_one(&spec, &sched);
     println!("HASH {}", trace_hash(&o.trace));
